@@ -33,12 +33,20 @@ theorem leading_comments_ignored {V} (parse : String → Option V) (c : List Str
     (hc : isComment c = true) : parseT parse (c :: lines) = parseT parse lines :=
   PhenoFile.leading_comments_ignored parse c lines hc
 
-/-- duplicates of one name become `x, x-1, …, x-(R-1)`, pairwise distinct -/
+/-- **every name multiset is written with pairwise distinct column names** (after fix F27): whatever repeats the list
+    holds, and whether or not suffixed forms such as `a-1` occur as names in their own right, the header that
+    `Phenotypes.write` produces has no repeated name – and as many names as were given, in the same positions -/
+theorem names_made_unique (names : List String) :
+    (uniqNames names).Nodup ∧ (uniqNames names).length = names.length :=
+  ⟨uniqNames_nodup names, uniqNames_length names⟩
+
+/-- duplicates of one name become `x, x-1, …, x-(R-1)`, pairwise distinct (instance of `names_made_unique`) -/
 theorem repeated_name_made_unique (x : String) (R : Nat) : (uniqNames (List.replicate R x)).Nodup :=
   replication_names_distinct x R
 
-/-- KF2 (known finding): the suffix scheme is not injective when a suffixed form is already present -/
-theorem uniqNames_collision_witness : uniqNames ["a", "a", "a-1"] = ["a", "a-1", "a-1"] :=
-  Pheno.uniqNames_collision_witness
+/-- F27 (fixed in /repo; formerly known finding KF2): the pre-fix suffix scheme wrote a repeated name when a suffixed
+    form was already a name -/
+theorem uniqNamesOld_collision_witness : uniqNamesOld ["a", "a", "a-1"] = ["a", "a-1", "a-1"] :=
+  Pheno.uniqNamesOld_collision_witness
 
 end C15
